@@ -30,15 +30,15 @@ def _grammar_terminals(root):
     for fn in t.body:
         if isinstance(fn, ast.FunctionDef) and fn.name.startswith("rrel_"):
             for n in ast.walk(fn):
-                if isinstance(n, ast.Call) and getattr(n.func, "id", "") == "_" and n.args and isinstance(n.args[0], ast.Constant): G |= _regex_literals(n.args[0].value)
-            regex_args = {id(n.args[0]) for n in ast.walk(fn) if isinstance(n, ast.Call) and getattr(n.func, "id", "") == "_" and n.args}
+                if isinstance(n, ast.Call) and getattr(n.func, "id", "") in ("_", "RegExMatch") and n.args and isinstance(n.args[0], ast.Constant): G |= _regex_literals(n.args[0].value)
+            regex_args = {id(n.args[0]) for n in ast.walk(fn) if isinstance(n, ast.Call) and getattr(n.func, "id", "") in ("_", "RegExMatch") and n.args}
             for n in ast.walk(fn):
                 if isinstance(n, ast.Constant) and isinstance(n.value, str) and id(n) not in regex_args and n.value: G.add(n.value)
     return G
 def _string_value_patterns(root):
     lang = load(root, L); fn = find(lang, "string_value"); pats = []
     for n in ast.walk(fn):
-        if isinstance(n, ast.Call) and getattr(n.func, "id", "") == "_" and n.args:
+        if isinstance(n, ast.Call) and getattr(n.func, "id", "") in ("_", "RegExMatch") and n.args:
             p = const_str(n.args[0], lang)
             if p is None: raise AnalysisError("string_value: pattern is not a constant string")
             pats.append(p)
